@@ -17,7 +17,7 @@ from . import amptools as AT
 from .common import EPS, facts, far, far_c, poly_sup_bound, poly_to_term, prove_close_poly, re_im, reduce_circle, simp, tensor_of, term_of
 
 PID = "C01"
-LEVEL = "other"
+LEVEL = "model_checking"
 CLAIM = (
     "Bounded symbolic verification on real amplitude models built by ConfigLoader (spin-0, spin-1 and spin-1/2 parents; three- and "
     "four-body final states with spins 0, 1/2, 1 (including a three-level cascade with spin-1/2 particles at the deepest level); several interfering chains in different topologies; identical bosons and identical "
